@@ -20,7 +20,11 @@ pub mod raw;
 pub use origin::WithOrigin;
 pub use raw::WithRawSiginfo;
 
+#[cfg(not(sighook_verif))]
 use std::sync::atomic::{AtomicBool, Ordering};
+#[cfg(sighook_verif)]
+#[allow(unused_imports)]
+use signal_hook_registry::verif_shim::atomic::*;
 
 use libc::{c_int, siginfo_t};
 
